@@ -258,6 +258,15 @@ def passes_through(e, ret, prog, ty):
             found.append(t)
         if t[0] == 'pure' and t[1] == 'default':
             found.append(t)
+        if t[0] == 'call' and isinstance(t[1], str) and re.search(r'Deserializer::deserialize_\w+$', t[1]) and len(t[2]) == 2 and t[2][1][0] == 'adt':
+            # serde: an Ok value of deserialize_*(visitor) is whatever one of the visitor's visit_* methods returned; those methods are
+            # repository functions returning `ty` and are constructors checked in their own right
+            vt = t[2][1][1].split('::')[-1]
+            for im in prog.facts.impls:
+                if im['trait_def'].endswith('de::Visitor') and im['self_ty'].split('::')[-1] == vt:
+                    ms = [i for i in im['items'] if i in prog.bodies and i.split('::')[-1].startswith('visit_')]
+                    if ms and all(ty in (prog.bodies[i]['sig'] or {}).get('output', '') for i in ms):
+                        found.append(t)
         if t[0] == 'pure' and t[1].split('::')[-1] in ('unwrap_or_default', 'default', 'clone'):
             found.append(t)
     terms.walk(ret, visit)
